@@ -15,8 +15,9 @@
 From Coq Require Import ZArith List Bool String.
 Import ListNotations.
 From V Require Import Base.Int Base.IO Spec.Gregorian Model.Date Model.DateExtra
-  Proofs.C08Sweeps Proofs.C08Date Proofs.C08Days Proofs.C08AddDays Proofs.C08 Proofs.C08Dt Proofs.C08Holds.
+  Proofs.C08Sweeps Proofs.C08Date Proofs.C08Days Proofs.C08AddDays Proofs.C08 Proofs.C08Dt Proofs.C08Holds Proofs.C08Ops.
 From V Require Model.Time Model.DateTime Model.C08 Judge.C08.
+From V Require Import Model.TimeDelta.
 Import V.Model.C08.
 Open Scope Z_scope.
 
@@ -283,6 +284,124 @@ Theorem C08_holds_years : forall y1 o1 y0 o0, year_in_range y1 = true -> valid_y
   V.Judge.C08.judge (B"d8.years") [denc y1 o1; denc y0 o0] (V.Model.C08.run (B"d8.years") [denc y1 o1; denc y0 o0]) = JOk.
 Proof. exact holds_years. Qed.
 Print Assumptions C08_holds_years.
+
+(* ---- NaiveWeek == NaiveWeek, != and Hash (op d8.weq: [week_eq_obs] = (==, !=, equality of the hashed
+   keys)).  All (date, first weekday) pairs: where both first days are representable dates the three
+   observations are equality of the first days (two weeks are equal exactly when they begin on the same
+   day, and equal weeks hash equally); everywhere else the code panics (both impls call the panicking
+   first_day()). *)
+Theorem C08_week_eq : forall y1 o1 d1 w1 y2 o2 d2 w2, repr y1 o1 d1 -> repr y2 o2 d2 -> 0 <= w1 <= 6 -> 0 <= w2 <= 6 ->
+  let f1 := week_start (dn_of_yo y1 o1) w1 in let f2 := week_start (dn_of_yo y2 o2) w2 in
+  week_eq_obs (d_week d1 w1) (d_week d2 w2) =
+    if dn_in_range f1 && dn_in_range f2
+    then Val (VTup [val_of_bool (f1 =? f2); val_of_bool (negb (f1 =? f2)); val_of_bool (f1 =? f2)])
+    else Panic.
+Proof. exact week_eq_spec. Qed.
+Print Assumptions C08_week_eq.
+(* the exact set of inputs where the real code panics (the model is faithful there; observation of
+   coverage/API_COVERAGE.md, no property text covers it): one of the two weeks begins before the first
+   representable date DN_MIN = -262143-01-01 (a Thursday), i.e. the date is fewer days after DN_MIN
+   than its weekday is after the chosen first weekday — six of the seven weeks containing DN_MIN *)
+Theorem C08_week_eq_panics_exactly : forall y1 o1 d1 w1 y2 o2 d2 w2,
+  repr y1 o1 d1 -> repr y2 o2 d2 -> 0 <= w1 <= 6 -> 0 <= w2 <= 6 ->
+  (week_eq_obs (d_week d1 w1) (d_week d2 w2) = Panic <->
+     week_start (dn_of_yo y1 o1) w1 < DN_MIN \/ week_start (dn_of_yo y2 o2) w2 < DN_MIN) /\
+  (week_start (dn_of_yo y1 o1) w1 < DN_MIN <->
+     dn_of_yo y1 o1 - DN_MIN < (weekday_of_dn (dn_of_yo y1 o1) - w1) mod 7).
+Proof. exact week_eq_panics_exactly. Qed.
+Print Assumptions C08_week_eq_panics_exactly.
+Example C08_week_eq_examples :
+  repr (-262143) 1 (mkdate (-262143) 1) /\
+  week_eq_obs (d_week (mkdate (-262143) 1) 1) (d_week (mkdate (-262143) 1) 1) = Panic /\
+  week_eq_obs (d_week (mkdate (-262143) 1) 3) (d_week (mkdate (-262143) 7) 3) = Val (VTup [VInt 1; VInt 0; VInt 1]) /\
+  week_eq_obs (d_week (mkdate 2024 60) 0) (d_week (mkdate 2024 60) 6) = Val (VTup [VInt 0; VInt 1; VInt 0]).
+Proof. exact week_eq_examples. Qed.
+Print Assumptions C08_week_eq_examples.
+
+(* ---- the deprecated NaiveDate::from_weekday_of_month: the date of the _opt form (C08_nth_weekday), the
+   documented panic exactly when that is None; all (i32, u32, weekday, u8) *)
+Theorem C08_nth_weekday_panicking : forall y m w n, in_i32 y = true -> in_u32 m = true -> 0 <= w <= 6 -> in_u8 n = true ->
+  unwrap_r (from_weekday_of_month_opt y m w n) =
+    match (if year_in_range y && (1 <=? m) && (m <=? 12) && (1 <=? n) then
+             let day := 1 + (w - weekday_of_dn (dn_of_ymd y m 1)) mod 7 + 7 * (n - 1) in
+             if day <=? days_in_month (is_leap y) m then Some (mk_ymd y m day) else None
+           else None)
+    with Some d => Val d | None => Panic end.
+Proof. exact pnth_weekday_spec. Qed.
+Print Assumptions C08_nth_weekday_panicking.
+
+(* ---- NaiveDateTime + Months / - Months: the stepped date with the time of day kept, the documented
+   panic exactly when the checked form (C08_ndt_months) is None *)
+Theorem C08_ndt_op_months : forall a y o n, repr y o (DateTime.nd_date a) -> in_u32 n = true ->
+  ndt_op_add_months a n =
+    match shift_months y o n with Some d' => Val (DateTime.mk_ndt d' (DateTime.nd_time a)) | None => Panic end /\
+  ndt_op_sub_months a n =
+    match shift_months y o (- n) with Some d' => Val (DateTime.mk_ndt d' (DateTime.nd_time a)) | None => Panic end.
+Proof. exact ndt_op_months_spec. Qed.
+Print Assumptions C08_ndt_op_months.
+(* ---- Datelike called directly on a NaiveDateTime (op d8.ndt.prov): quarter, year_ce, num_days_in_month,
+   year, month, month0, day, day0, ordinal, ordinal0, weekday — those of the date part, no trap *)
+Theorem C08_ndt_datelike : forall a y o, repr y o (DateTime.nd_date a) ->
+  ndt_prov a = Val (VTup [VInt ((month_of y o - 1) / 3 + 1); val_of_bool (1 <=? y);
+    VInt (if 1 <=? y then y else 1 - y); VInt (days_in_month (is_leap y) (month_of y o)); VInt y;
+    VInt (month_of y o); VInt (month_of y o - 1); VInt (day_of y o); VInt (day_of y o - 1);
+    VInt o; VInt (o - 1); VInt (weekday_of_dn (dn_of_yo y o))]).
+Proof. exact ndt_prov_spec. Qed.
+Print Assumptions C08_ndt_datelike.
+
+(* ---- every op of the dispatcher: which model function answers it ([sh_*]: the argument decoders of
+   Proofs/C08Ops.v).  d8.months_u32: Months::new(n).as_u32() is n itself for every u32. *)
+Theorem C08_dispatch : forall args,
+  run (B"d8.addm") args = sh_du (fun d n => val_of_R vo_date (checked_add_months d n)) args /\
+  run (B"d8.subm") args = sh_du (fun d n => val_of_R vo_date (checked_sub_months d n)) args /\
+  run (B"d8.opaddm") args = sh_du (fun d n => val_of_R DateTime.enc_date (d_op_add_months d n)) args /\
+  run (B"d8.opsubm") args = sh_du (fun d n => val_of_R DateTime.enc_date (d_op_sub_months d n)) args /\
+  run (B"d8.with") args = sh_with DateTime.dec_date (fun f d x => val_of_R vo_date (d_with f d x)) args /\
+  run (B"d8.wfirst") args = sh_dw (fun d w => val_of_R vo_date (week_checked_first_day (d_week d w))) args /\
+  run (B"d8.wlast") args = sh_dw (fun d w => val_of_R vo_date (week_checked_last_day (d_week d w))) args /\
+  run (B"d8.week") args = sh_dw (fun d w => val_of_R (val_of_option pairv) (week_checked_days (d_week d w))) args /\
+  run (B"d8.wfirstp") args = sh_dw (fun d w => val_of_R DateTime.enc_date (week_first_day (d_week d w))) args /\
+  run (B"d8.wlastp") args = sh_dw (fun d w => val_of_R DateTime.enc_date (week_last_day (d_week d w))) args /\
+  run (B"d8.wdaysp") args = sh_dw (fun d w => val_of_R pairv (week_days (d_week d w))) args /\
+  run (B"d8.nthwd") args = sh_nth (fun y m w n => val_of_R vo_date (from_weekday_of_month_opt y m w n)) args /\
+  run (B"d8.pnthwd") args = sh_nth (fun y m w n => val_of_R DateTime.enc_date (unwrap_r (from_weekday_of_month_opt y m w n))) args /\
+  run (B"d8.years") args =
+    match args with
+    | [a; b] => match DateTime.dec_date a, DateTime.dec_date b with
+        | Some d, Some base => val_of_R vo_int (years_since d base) | _, _ => VBad end
+    | _ => VBad end /\
+  run (B"d8.dtyears") args =
+    match args with
+    | [a; b] => match DateTime.dec_dtz a, DateTime.dec_dtz b with
+        | Some d, Some base => val_of_R vo_int (dz_years_since d base) | _, _ => VBad end
+    | _ => VBad end /\
+  run (B"d8.quarter") args = sh_d1 (fun d => val_of_R VInt (d_quarter d)) args /\
+  run (B"d8.yce") args = sh_d1 (fun d => val_of_R (fun p => VTup [val_of_bool (fst p); VInt (snd p)]) (d_year_ce d)) args /\
+  run (B"d8.dim") args = sh_d1 (fun d => val_of_R VInt (d_num_days_in_month d)) args /\
+  run (B"d8.mdays") args =
+    match args with
+    | [a; b] => match arg_month a, arg_i32 b with
+        | Some m, Some y => val_of_R vo_int (month_num_days m y) | _, _ => VBad end
+    | _ => VBad end /\
+  run (B"d8.ndt.addm") args = sh_nu (fun d n => val_of_R vo_ndt (DateTime.ndt_checked_add_months d n)) args /\
+  run (B"d8.ndt.subm") args = sh_nu (fun d n => val_of_R vo_ndt (DateTime.ndt_checked_sub_months d n)) args /\
+  run (B"d8.ndt.with") args = sh_with DateTime.dec_ndt (fun f d x => val_of_R vo_ndt (DateTime.ndt_with f d x)) args /\
+  run (B"d8.ndt.opaddm") args = sh_nu (fun d n => val_of_R DateTime.enc_ndt (ndt_op_add_months d n)) args /\
+  run (B"d8.ndt.opsubm") args = sh_nu (fun d n => val_of_R DateTime.enc_ndt (ndt_op_sub_months d n)) args /\
+  run (B"d8.ndt.prov") args =
+    match args with
+    | [a] => match DateTime.dec_ndt a with Some x => val_of_R (fun v => v) (ndt_prov x) | None => VBad end
+    | _ => VBad end /\
+  run (B"d8.months_u32") args =
+    match args with [a] => match arg_u32 a with Some n => VInt n | None => VBad end | _ => VBad end /\
+  run (B"d8.weq") args =
+    match args with
+    | [a; b; c; e] => match DateTime.dec_date a, arg_wd b, DateTime.dec_date c, arg_wd e with
+        | Some d1, Some w1, Some d2, Some w2 => val_of_R (fun v => v) (week_eq_obs (d_week d1 w1) (d_week d2 w2))
+        | _, _, _, _ => VBad end
+    | _ => VBad end.
+Proof. exact dispatch. Qed.
+Print Assumptions C08_dispatch.
 
 (* ---- the hypotheses are inhabited: 2024-01-31 (+1 month -> leap day), the range ends *)
 Example C08_ex_repr : repr 2024 31 (mkdate 2024 31) /\ repr (-262143) 1 (mkdate (-262143) 1)
